@@ -90,7 +90,14 @@ ConnFaults(D, m, inst, c) ==
        IF c.t.k = "nc" THEN (IF inst.kind = "inst" \/ f.bund = "" THEN {} ELSE {"noconn_on_array_or_pair_bundle_port"})
        ELSE IF f.bund # ""
        THEN (IF ~IsBundleLike(D, m, c.t) THEN {"signal_to_bundle_port"}
-             ELSE IF BLeaves(D, m, c.t) # LeafSet(D, f.bund) THEN {"bundle_mismatch"} ELSE {})
+             ELSE IF BLeaves(D, m, c.t) # LeafSet(D, f.bund)
+                  THEN LET A == BLeaves(D, m, c.t)  B == LeafSet(D, f.bund) IN
+                       \* an array's bundle-valued port whose members are given n times as wide (wired element by element, as a signal port may
+                       \* be): the property lists no such rule either way
+                       IF inst.kind = "array" /\ {x[1] : x \in A} = {x[1] : x \in B}
+                          /\ \A x \in A : \E y \in B : y[1] = x[1] /\ x[2] \in {y[2], y[2] * inst.arr}
+                       THEN {"array_bundle_member_per_element"} ELSE {"bundle_mismatch"}
+                  ELSE {})
        ELSE IF IsSigLike(D, m, c.t)
        THEN LET w == Width(D, m, c.t) IN
             IF w = f.w THEN {}
@@ -159,7 +166,7 @@ AnyLenient(D) == \E mn \in Reach(D, D.top, NMods(D)) : \E i \in Range(D.mods[mn]
 
 (* rules whose violation C02 does not list among the faults that must be rejected: nothing is demanded of such designs *)
 Unlisted == {"noconn_in_concat", "noconn_in_anon_bundle", "noconn_on_array_or_pair_bundle_port", "slice_of_bundle", "bundle_in_concat",
-             "duplicate_connection", "empty_array", "duplicate_name", "noconn_port_mentioned_below_slice_of_concat"}
+             "duplicate_connection", "empty_array", "duplicate_name", "noconn_port_mentioned_below_slice_of_concat", "array_bundle_member_per_element"}
 
 Status(D) == LET f == FaultClauses(D) IN
              IF f \ Unlisted # {} THEN "fault"
